@@ -297,6 +297,9 @@ echo $$ >> "$pids"
 printf '%s' "$4" > "$out.arg"
 printf '%s' "${OUT-}" > "$out.env"
 if [ "${OUT+set}" = set ]; then echo set > "$out.set"; else echo unset > "$out.set"; fi
+case "$marker" in
+  2:*) m=${marker#2:}; n=$(wc -l < "$m" 2>/dev/null || echo 0); if [ "$n" -lt 2 ]; then echo x >> "$m"; exit 1; fi; exit 0;;
+esac
 if [ "$marker" != - ] && [ ! -e "$marker" ]; then : > "$marker"; exit 1; fi
 exit 0
 `, 0o755)
